@@ -97,6 +97,12 @@ def h1(ctx, fx, H):
 
 def h2(ctx, fx, H):
     npush = 0
+    if H.field_out is not None:
+        if H.field_out["emptied"]:
+            ctx.ok("C06.H2", H.present, "selection-emptied", "the selection is written into hs_disclosures through an out-parameter, and the field is emptied before on every path", line=H.field_out["line"])
+        else:
+            ctx.finding("C06.H2", H.present, "selection-emptied", "the selection is accumulated into self.hs_disclosures through an out-parameter, but the field is not emptied before the selection on every "
+                        "path: what an earlier (failed) call left there is presented too", line=H.field_out["line"])
     for fn in H.sel_fns:
         L, writes = H.result_writes(fn)
         if L is None:
